@@ -96,9 +96,12 @@ func TrailerSize(r io.ReaderAt, size int64) int64 {
 
 func removeSignature(cd []byte) []byte {
 	size := len(cd)
+	if size < 10 {
+		return cd
+	}
 	var tr xapTrailer
 	_ = binary.Read(bytes.NewReader(cd[size-10:size]), binary.LittleEndian, &tr)
-	if tr.Magic == trailerMagic {
+	if tr.Magic == trailerMagic && int64(tr.TrailerSize)+10 <= int64(size) {
 		size -= int(tr.TrailerSize) + 10
 		return cd[:size]
 	}
